@@ -28,6 +28,8 @@ type SeqReply struct {
 // with well-formed replies (fresh non-empty batch, strictly increasing timestamp) unless
 // Idle is set (then: empty batches with increasing timestamps).
 type SeqDouble struct {
+	// KVFormat: fresh transactions are "key=value" (the node runs on the reference key-value execution layer)
+	KVFormat bool
 	mu     sync.Mutex
 	tr     *Tracer
 	node   string
@@ -101,6 +103,9 @@ func (s *SeqDouble) GetNextBatch(ctx context.Context, req coresequencer.GetNextB
 	} else {
 		s.fresh++
 		tx := []byte(fmt.Sprintf("fresh-%s-%d", s.node, s.fresh))
+		if s.KVFormat {
+			tx = []byte(fmt.Sprintf("fresh-%s-%d=%d", s.node, s.fresh, s.fresh))
+		}
 		r = SeqReply{Kind: "batch", Txs: [][]byte{tx}, TsMs: s.maxTs + 1000}
 	}
 	if (r.Kind == "batch" || r.Kind == "empty") && r.TsMs > s.maxTs {
